@@ -44,10 +44,10 @@ def _unitaries(spec, d, N):
     Us = []
     for k in range(N):
         if spec["kind"] == "generic":
-            h = spec["hs"][0 if spec["const"] else k]
+            h = spec["hs"][0 if spec["const"] else k % len(spec["hs"])]      # longer than generated: cycle
             Us.append(expm(-1j * spec["scale"] * gens.herm(h)))
         else:
-            ws = spec["ws"][0 if spec["const"] else k]
+            ws = spec["ws"][0 if spec["const"] else k % len(spec["ws"])]
             Us.append(A.controlled_unitary([expm(-1j * spec["scale"] * gens.herm(w)) for w in ws]))
     return Us
 
